@@ -32,7 +32,7 @@ CLAIMED['C05'] = dict(
     text='Theorems over ALL chunkings and ALL histories of feed/feed_byte/get_message/pending/iteration: chunked feeding reaches the same '
          'parser state as feeding at once; retrieved ++ queued == parse_all(everything fed) (FIFO, nothing lost or duplicated); pending/get '
          'contracts; ParserQueue histories reduce to Parser histories. Correspondence compares real Parser/ParserQueue step by step.',
-    note='Coq kernel; no axioms; one iterator kept alive across other calls is modelled (C05_live_iterator), several at once are not; ParserQueue put() covered by correspondence only.',
+    note='Coq kernel; no axioms; any number of iterators kept alive across other calls and advanced in any order are modelled (C05_live_iterator); ParserQueue put(), Parser(data) followed by feeds and ParserQueue chunking are covered by correspondence and an oracle.',
     technique='Coq proof (induction over operation histories) + model/implementation correspondence', design='5/C05')
 CLAIMED['C06'] = dict(
     text='Theorems: for ANY byte prefix P and ANY valid message M, parse_all(P ++ enc M) = parse_all(P) ++ [M]; any concatenation of encodings '
@@ -142,7 +142,9 @@ CLAIMED['C11'] = dict(
          'autoreset messages go out once, contiguous, just before the release; send on a closed port raises ValueError unchanged; a closed port drains in order then stops; '
          'iteration never ends with an exception because of a close; blocking receive returns after exactly k sleeps when the device delivers at call k+1, non-blocking calls '
          'never sleep; MultiPort returns without sleeping when anything is deliverable. Correspondence drives real port classes over scripted device doubles with a fake sleep.',
-    note='Coq kernel; no axioms; threads are not in this model (C10 covers locking); "never returns" is fuel exhaustion in the model and a bounded hang guard on the fake sleep in the harness; '
+    note='Coq kernel; no axioms; the IOPort wrapper over two device ports has its own model (IOPortM.v: every call forwarded, the wrapped ports also closed directly) with the same '
+         'theorems, and close() from any number of threads under any schedule has one (ConcClose.v: at most one release, exactly one once a call has returned; refuted without the '
+         'lock), both tied by correspondence; other concurrent use is C10\'s; "never returns" is fuel exhaustion in the model and a bounded hang guard on the fake sleep in the harness; '
          'PortServer/SocketPort are covered under C18.',
     technique='Coq proof (invariant by induction over operation histories and device scripts) + model/implementation correspondence', design='5/C11')
 CLAIMED['C18'] = dict(
@@ -161,9 +163,12 @@ CLAIMED['C10'] = dict(
          'order their senders obtained the port (device: the complete ones among the bytes read - never mixed byte-wise), each once; every sender\'s messages keep their order. '
          'One step invariant, lifted over the schedule by induction. The tie runs REAL threads on the real ports.py under a deterministic scheduler (yield points = the same '
          'accesses) and replays every executed schedule on the model; small programs get every schedule with at most 2 (thorough: 3) preemptions.',
-    note='Coq kernel; no axioms; atomicity of deque/RLock methods under the GIL and "nothing shared is touched between yield points" are assumptions; MultiPort fan-in has its own '
-         'model (ConcMulti.v) and theorems (no raise, exactly once) and the same schedule replay; MultiPort fan-out, mixed use and the copy-on-send clause are checked on the real threads '
-         'under explored schedules against the statement only; the behaviour without the lock is a refuted theorem.',
+    note='Coq kernel; no axioms; atomicity of deque/RLock methods under the GIL and "nothing shared is touched between yield points" are assumptions. Further models, each with '
+         'its own theorems and the same schedule replay: MultiPort fan-in (ConcMulti.v: no raise, exactly once), MultiPort fan-out (ConcFan.v: no raise, every sub-port gets every '
+         'message exactly once and all in one order, per-sender order), ParserQueue fed by several threads (ConcPQ.v: FIFO, per-feeder order), and the copy clause (SendCopy.v, a '
+         'heap of objects with identity: what is received holds the value at send time whatever caller and receivers edit afterwards, for every history and any number of '
+         'queues). Mixed use of a MultiPort and the helper functions multi_send / multi_receive on a shared list run on the real threads under explored schedules against the '
+         'statement only; the behaviour without the lock, and with aliasing instead of copying, are refuted theorems.',
     technique='Coq proof (step invariant preserved by every thread step, induction over the schedule) + model/implementation correspondence on systematically explored schedules', design='5/C10')
 NOT_YET = {}
 ALL = ['C%02d' % i for i in range(1, 21)]
